@@ -45,7 +45,7 @@ def m7(x: np.ndarray, bw: float, pad: int) -> np.ndarray:
     return y[K:-K]
 
 
-def channel(bw, eom_bw=None):
+def _channel(bw, eom_bw=None):
     from pulser.channels import Rydberg
     from pulser.channels.eom import RydbergBeam, RydbergEOM
 
@@ -56,6 +56,29 @@ def channel(bw, eom_bw=None):
             intermediate_detuning=450 * 2 * math.pi, mod_bandwidth=eom_bw,
             controlled_beams=(RydbergBeam.BLUE,))
     return Rydberg.Global(None, None, mod_bandwidth=bw, **kw)
+
+
+class _Refused(Exception):
+    pass
+
+
+def channel(bw, eom_bw=None):
+    """Whether a channel with these parameters can be constructed is C12's subject; the
+    statements here are about channels that exist."""
+    try:
+        return _channel(bw, eom_bw)
+    except Exception as e:  # noqa: BLE001
+        raise _Refused(f"{type(e).__name__}: {e}") from None
+
+
+def _skip_refused(fn):
+    def wrapped(case, ctx):
+        try:
+            return fn(case, ctx)
+        except _Refused:
+            ctx.label("channel_refused_by_constructor")
+    wrapped.__name__ = fn.__name__
+    return wrapped
 
 
 @st.composite
@@ -94,6 +117,7 @@ def mk_sig(s) -> np.ndarray:
     return np.asarray(s["samples"], dtype=float)
 
 
+@_skip_refused
 def check_filter(case, ctx: Ctx):
     C = "C14.filter"
     bw = case["bw"]
@@ -171,6 +195,7 @@ def enum_tone(tier):
             yield dict(bw=bw, eom=eom)
 
 
+@_skip_refused
 def check_tone(case, ctx: Ctx):
     C = "C14.tone"
     bw = case["bw"]
@@ -226,9 +251,25 @@ def fall_cases(draw):
         det = draw(st.sampled_from([dict(k="const", d=_wf_d(amp), v=0.0),
                                     dict(k="blackman", d=_wf_d(amp), area=-1.0)]))
         p = dict(k="pulse", amp=amp, det=det, phase=0.0)
+    elif draw(st.integers(0, 2)) == 0:
+        # detuning alone decides it: the amplitude ends at zero and the two ends of the
+        # detuning differ (flat at zero then rising, gentle ramp, or the mirror images)
+        d = draw(st.sampled_from([16, 52, 100, 203, 400]))
+        x = draw(st.sampled_from([-1.0, 1.0])) * draw(gen.fl(2.0, 40.0))
+        h = max(d // 2, 1)
+        det = draw(st.sampled_from([
+            dict(k="ramp", d=d, a=0.0, b=x),
+            dict(k="ramp", d=d, a=x, b=0.0),
+            dict(k="composite", parts=[dict(k="const", d=h, v=0.0), dict(k="ramp", d=d - h if d > h else 1, a=0.0, b=x)]),
+            dict(k="composite", parts=[dict(k="ramp", d=h, a=x, b=0.0), dict(k="const", d=d - h if d > h else 1, v=0.0)]),
+            dict(k="interp", d=d, values=[0.0, 0.0, 0.1 * x, x]),
+        ]))
+        amp = dict(k="blackman", d=_wf_d(det), area=1.0)
+        p = dict(k="pulse", amp=amp, det=det, phase=0.0)
     return dict(bw=bw, eom=eom, pulse=p)
 
 
+@_skip_refused
 def check_fall(case, ctx: Ctx):
     C = "C14.fall_time"
     ch = channel(case["bw"], case["eom"])
@@ -358,6 +399,94 @@ def profile_fall(tier):
     return dict(p, device=p["device"].map(force))
 
 
+@st.composite
+def pair_cases(draw):
+    ch = lambda: dict(bw=draw(st.sampled_from([2, 4, 8, 20, 40])),  # noqa: E731
+                      eom=draw(st.sampled_from([None, 20, 40, 100])), in_eom=draw(st.booleans()),
+                      d=draw(st.sampled_from([52, 100, 200, 400])), amp=draw(gen.fl(1.0, 10.0)),
+                      shape=draw(st.sampled_from(["const", "blackman", "ramp_up"])))
+    return dict(a=ch(), b=ch(), protocol=draw(st.sampled_from(["min-delay", "wait-for-all"])),
+                local=draw(st.booleans()))
+
+
+def check_pair(case, ctx: Ctx):
+    """Two channels on the same atoms, one pulse each, the second added with a waiting protocol:
+    when the second pulse starts, the output of the first is below the statement's bound."""
+    from pulser import Pulse, Register, Sequence
+    from pulser.channels import Rydberg
+    from pulser.channels.eom import RydbergBeam, RydbergEOM
+    from pulser.devices import VirtualDevice
+    from pulser.sampler import sample
+    from pulser.waveforms import BlackmanWaveform, ConstantWaveform, RampWaveform
+
+    C = "C14.separated_pulses"
+
+    def mk_ch(c):
+        kw = {}
+        if c["eom"]:
+            kw["eom_config"] = RydbergEOM(
+                limiting_beam=RydbergBeam.RED, max_limiting_amp=30 * 2 * math.pi,
+                intermediate_detuning=450 * 2 * math.pi, mod_bandwidth=c["eom"],
+                controlled_beams=(RydbergBeam.BLUE,))
+        if case["local"]:
+            return Rydberg.Local(None, None, mod_bandwidth=c["bw"], max_targets=2, **kw)
+        return Rydberg.Global(None, None, mod_bandwidth=c["bw"], **kw)
+
+    try:
+        dev = VirtualDevice(name="pair", dimensions=2, rydberg_level=60,
+                            channel_objects=(mk_ch(case["a"]), mk_ch(case["b"])))
+    except Exception:  # noqa: BLE001 - constructability is C12's subject
+        ctx.label("device_refused")
+        return
+    seq = Sequence(Register({"q0": (0.0, 0.0), "q1": (8.0, 0.0)}), dev)
+    ids = list(dev.channels)
+    tgt = dict(initial_target="q0") if case["local"] else {}
+    seq.declare_channel("A", ids[0], **tgt)
+    seq.declare_channel("B", ids[1], **tgt)
+
+    def play(name, c, **kw):
+        if c["in_eom"] and c["eom"]:
+            seq.enable_eom_mode(name, c["amp"], 0.0)
+            seq.add_eom_pulse(name, c["d"], 0.0, **kw)
+            return "eom"
+        if c["shape"] == "const":
+            amp = ConstantWaveform(c["d"], c["amp"])
+        elif c["shape"] == "blackman":
+            amp = BlackmanWaveform(c["d"], c["amp"] * c["d"] * 0.42e-3)
+        else:
+            amp = RampWaveform(c["d"], 0.0, c["amp"])
+        seq.add(Pulse.ConstantDetuning(amp, 0.0, 0.0), name, **kw)
+        return "std"
+
+    ka = ctx.must(lambda: play("A", case["a"]), C, "first pulse")
+    kb = ctx.must(lambda: play("B", case["b"], protocol=case["protocol"]), C, "second pulse")
+    ctx.label(f"first={ka}", f"second={kb}")
+    ctx.nontrivial(ka != kb or case["a"]["bw"] != case["b"]["bw"])
+    slot_b = [s for s in seq._schedule["B"].slots if isinstance(s.type, Pulse) and
+              float(np.max(np.asarray(s.type.amplitude.samples.as_array()))) > 0][-1]
+    mod = ctx.must(lambda: sample(seq, modulation=True), C, "sample(modulation=True)")
+    a = np.asarray(mod.channel_samples["A"].amp.as_array(), dtype=float)
+    peak = float(np.max(np.abs(a))) if a.size else 0.0
+    tail = a[slot_b.ti:]
+    thr = max(0.01, 0.006 * peak)
+    if tail.size and float(np.max(np.abs(tail))) > thr * (1 + 1e-9):
+        i = int(np.argmax(np.abs(tail)))
+        ctx.fail(C, f"outputs_overlap:first={ka},second={kb}",
+                 f"the {case['protocol']} pulse on B starts at t={slot_b.ti} while the output of A is still "
+                 f"{tail[i]:.4g} rad/us at t={slot_b.ti + i} (bound {thr:.4g}; A: {case['a']}, B: {case['b']})")
+
+
+def profile_eom(tier):
+    """EOM-heavy programs on modulated channels (EOM bandwidths 20..100 MHz, default and custom
+    buffer times down to 1 ns): the EOM blocks and their buffers are filtered separately."""
+    p = profile(tier)
+    return dict(p, min_ops=4, max_ops=16, min_channels=1,
+                weights={"declare": 6, "declare_more": 1, "add": 6, "align": 1, "delay": 2,
+                         "phase_shift": 1, "target": 1, "eom": 14},
+                device=gen.device_specs(n_channels=(1, 2), allow_builtin=False, allow_dmm=False,
+                                        chan_kw={"kind": "Rydberg", "eom": True, "bandwidth": [4, 8, 20, 40]}))
+
+
 CLAUSES = [
     Clause("filter", check_filter, gen=lambda t: signal_cases(),
            budget={"quick": (8, 250), "thorough": (16, 12000)}),
@@ -370,4 +499,11 @@ CLAUSES = [
     Clause("sequence_ending_in_fall_time", check_seq, gen=lambda t: gen.programs(profile_fall(t)),
            budget={"quick": (8, 60), "thorough": (16, 1500)},
            doc="modulated sampling of sequences that end with short delays after a pulse"),
+    Clause("separated_pulses", check_pair, gen=lambda t: pair_cases(),
+           budget={"quick": (8, 60), "thorough": (16, 3000)},
+           doc="two channels on the same atoms (own bandwidths, with/without EOM, in/out of EOM mode): a pulse "
+               "added with min-delay / wait-for-all starts only when the other channel's output is below the bound"),
+    Clause("sequence_eom", check_seq, gen=lambda t: gen.programs(profile_eom(t)),
+           budget={"quick": (8, 40), "thorough": (16, 1500)},
+           doc="modulated sampling of EOM-heavy sequences (every EOM bandwidth and buffer time of the generator)"),
 ]
